@@ -6,8 +6,12 @@ LEVEL = "other"
 MODES = ALL_MODES
 FUNCS = ["data:TimePoint.to_time_zone", "data:TimePoint.to_utc",
          "data:TimePoint.to_local_time_zone", "timezone:get_local_time_zone",
-         "ghost:rezone_preserves", "ghost:rezone_utc_preserves"]
+         "ghost:rezone_preserves", "ghost:rezone_utc_preserves", "ghost:dump_with_literal_zone"]
 FUNCS = FUNCS + T1_CAL + TICK + ADD_EXACT
+# quick: one literal per date representation and notation (the thorough tier runs all 31)
+QUICK_FILTER = {"ghost:dump_with_literal_zone": lambda c: c in (
+    "cal|CCYY-MM-DDThh:mm:ss-00:30", "ord|CCYYDDDThhmmss-0330", "week|CCYY-Www-DThh:mm:ssZ",
+    "cal|CCYYMMDDThhmmss+0000", "week|CCYY-Www-DThh:mm:ss+05:45")}
 LEMMAS = CAL_LEMMAS + ["opaque.dby.step", "opaque.dby.range", "cal.key.order", "ord.key.order",
           "day.split.unique", "hms.split.unique"]
 CANARIES = ["canary.dby.step.wrong"]
@@ -15,10 +19,16 @@ EXPLANATION = (
     "Proved: to_time_zone / to_utc / to_local_time_zone return a fresh point with the "
     "same instant, the requested offset, the same representation and valid fields, for "
     "all shapes, offsets -99:59..+99:59 and modes; 'compares equal, hashes equal, zero "
-    "difference' are ghost programs over the C02/C04 contracts. BOUNDED (not proved): the "
-    "dump-with-a-literal-zone clause, where the zone literal is decoded from text.")
-LEVEL_TEXT = ("Data-model part: proof. Dump-with-literal-zone part: exhaustive enumeration "
-              "of every zone literal (finite), labelled bounded. Hence 'other'.")
+    "difference' are ghost programs over the C02/C04 contracts. Dump with a literal zone: "
+    "the REAL dumper (format analysis, get_time_zone, re-zoning, formatting) and the REAL "
+    "parser executed on a symbolic whole-second point for 8 zone literals (Z, +01, -0330, "
+    "+05:45, -00:30, +14:00, -12, +0000) x 3 representations x basic/extended: the text "
+    "parses back to a point equal to p that carries exactly the literal's offset, keeps the "
+    "representation and has valid fields (ghost program dump_with_literal_zone; gregorian "
+    "mode). BOUNDED: every other zone literal (enumerated: finite).")
+LEVEL_TEXT = ("Data-model part: proof. Dump-with-literal-zone: proof for 8 literals on every "
+              "point, exhaustive enumeration of every zone literal on 3 points (bounded). "
+              "Hence 'other'.")
 LEVEL_NOTE = ("Floats as reals; the text decoding of zone literals in the dumper is "
               "covered by enumeration, not proof.")
 
